@@ -158,6 +158,13 @@ def directed():
         dict(f5, ops=[["start", 2, [[1, 0, 1]]], ["end"]]),
         dict(f5, ops=[["start", 2, [[1, 0, 7], [2, 0, 10], [0, 0, 9]]], ["pass", [[2, 0, 3]], [[3, 0, 6]]], ["end"]]),
         dict(f6, ops=[["start", 2, []], ["pass", [[0, 0, 5], [0, 1, 3]], [[5, 0, 4], [3, 1, 2]]], ["end"]]),
+        # boxwork declared with bx: nested box earlier, then an over=None box, then a default-over box (must be top level)
+        dict(forest([None, 0, None, None, 3]), decl=[[0, "none"], [1, "name"], [2, "none"], [3, "default"], [4, "obj"]],
+             ops=[["start", 1, []], ["pass", [[0, 0, 3]], []], ["pass", [[3, 0, 4]], []], ["end"]]),
+        dict(forest([None, 0, 0, 1, None]), decl=[[0, "default"], [1, "obj"], [2, "default"], [3, "name"], [4, "none"]],
+             ops=[["start", 3, []], ["pass", [[0, 0, 4]], []], ["end"]]),
+        dict(f5, decl=[[0, "none"], [1, "name"], [2, "obj"], [3, "default"], [4, "name"]],
+             ops=[["start", 2, []], ["pass", [[2, 0, 3]], []], ["end"]]),
         # cross-tree transition, ops after the end are ignored
         dict(two, ops=[["start", 0, []], ["pass", [[0, 0, 2]], []], ["pass", [[1, 0, 0]], []], ["end"], ["pass", [], []], ["end"]]),
         # pass before start
@@ -176,6 +183,40 @@ def random_forest(rng, n):
     for c in counts:
         c[K["go"]] = rng.choice([0, 1, 2, 2, 3])
     return forest(overs, order, counts)
+
+
+def declare(rng, f, p_default=0.6):
+    """a declaration order (an over before its unders, unders of one box in their order) and, per box, how over is
+    given: by name, by object, None, or left to the default when the current level already is the intended over"""
+    n = len(f["overs"])
+    nxt = {b: 0 for b in range(n)}                      # next under of b to declare
+    roots = [b for b in range(n) if f["overs"][b] is None]
+    ready, decl, level, ri = [], [], None, 0
+    # candidates: the next undeclared root (roots may come in any interleaving), or the next under of a declared box
+    declared = []
+    while len(declared) < n:
+        cands = []
+        if ri < len(roots):
+            cands.append(roots[ri])
+        for b in declared:
+            if nxt[b] < len(f["unders"][b]):
+                cands.append(f["unders"][b][nxt[b]])
+        b = rng.choice(cands)
+        ov = f["overs"][b]
+        if ov is None:
+            ri += 1
+        else:
+            nxt[ov] += 1
+        if ov == level and rng.random() < p_default:
+            mode = "default"
+        elif ov is None:
+            mode = "none"
+        else:
+            mode = rng.choice(["name", "obj"])
+        decl.append([b, mode])
+        declared.append(b)
+        level = ov
+    return decl
 
 
 def random_case(rng):
@@ -213,7 +254,10 @@ def random_case(rng):
         active = exp[1]
     if rng.random() < 0.8:
         ops.append(["end"])
-    return dict(f, ops=ops)
+    c = dict(f, ops=ops)
+    if consistent(c) and rng.random() < 0.6:
+        c["decl"] = declare(rng, f)
+    return c
 
 
 def exhaustive_cases(nmax, fail_variants=True, dedupe=False):
@@ -247,8 +291,26 @@ def exhaustive_cases(nmax, fail_variants=True, dedupe=False):
                         yield dict(f, ops=[["start", near, []], ["pass", [[pile[0], 0, far]], [[far, 0]]], ["end"]])
 
 
+def declared_case(rng):
+    """several trees, declared through bx with many default overs"""
+    n = rng.choice([3, 4, 5, 6, 7])
+    overs = [None if (i == 0 or rng.random() < 0.4) else rng.randrange(i) for i in range(n)]
+    f = forest(overs, lambda b, us: rng.sample(us, len(us)))
+    first = rng.randrange(n)
+    ops = [["start", first, []]]
+    active = first
+    for _ in range(rng.choice([1, 2, 3])):
+        b = rng.choice(spec_pile(f, active))
+        gos = [[b, 0, rng.randrange(n)]]
+        ops.append(["pass", gos, []])
+        active = _expected_pass(f, active, gos, [])[1]
+    ops.append(["end"])
+    return dict(f, ops=ops, decl=declare(rng, f, 0.85))
+
+
 def generate(rng, tier):
     out = [random_case(rng) for _ in range(700 if tier == "quick" else 6000)]
+    out += [declared_case(rng) for _ in range(200 if tier == "quick" else 2000)]
     if tier == "quick":
         out += list(exhaustive_cases(3))
     else:
@@ -263,10 +325,37 @@ def run_impl(case):
     from hio.base.hier import Bag
     n = len(case["overs"])
     trace, cur = [], {"gos": {}, "fails": {}}
-    boxes = [Box(name=f"b{i}") for i in range(n)]
+    built = None
+    if case.get("decl"):
+        # the boxwork is declared through Boxer.make() and the bx verb: over by name, by object, None, or default
+        maker = Boxer(name="mkr")
+
+        def fun(H, bx, go, do, on, at, be):
+            made = {}
+            for b, mode in case["decl"]:
+                ov = case["overs"][b]
+                if mode == "name":
+                    made[b] = bx(name=f"b{b}", over=f"b{ov}")
+                elif mode == "obj":
+                    made[b] = bx(name=f"b{b}", over=made[ov])
+                elif mode == "none":
+                    made[b] = bx(name=f"b{b}", over=None)
+                else:
+                    made[b] = bx(name=f"b{b}")
+        maker.make(fun)
+        boxes = [maker.boxes[f"b{i}"] for i in range(n)]
+        idx = {id(b): i for i, b in enumerate(boxes)}
+        built = [[b, idx.get(id(boxes[b].over)) if boxes[b].over is not None else None,
+                  [idx.get(id(u), -1) for u in boxes[b].unders], [idx.get(id(x), -1) for x in boxes[b].pile]]
+                 for b, _ in case["decl"]]
+        for b in boxes:
+            b._pile = None      # piles are traced again after the links were inspected
+    else:
+        boxes = [Box(name=f"b{i}") for i in range(n)]
+        for i, b in enumerate(boxes):
+            b.over = boxes[case["overs"][i]] if case["overs"][i] is not None else None
+            b.unders = [boxes[u] for u in case["unders"][i]]
     for i, b in enumerate(boxes):
-        b.over = boxes[case["overs"][i]] if case["overs"][i] is not None else None
-        b.unders = [boxes[u] for u in case["unders"][i]]
         for kind in KINDS:
             lst = getattr(b, ATTR[kind])
             for j in range(case["counts"][i][K[kind]]):
@@ -319,6 +408,8 @@ def run_impl(case):
             boxer.hold[("", "boxer", "bxr", "end")] = Bag(value=True)
             drive(lambda: gen.send(tyme))
         obs.append({"status": list(status), "trace": [list(e) for e in trace]})
+    # last element: what bx built, per declared box [box, over, unders, pile] (None when the boxes were linked directly)
+    obs.append({"built": built})
     return obs
 
 
@@ -361,6 +452,12 @@ def _expected_pass(case, active, gos, fails):
 
 
 def oracle(case, obs):
+    built, obs = obs[-1]["built"], obs[:-1]
+    if built is not None:
+        for b, ov, un, pile in built:
+            if ov != case["overs"][b] or un != case["unders"][b] or pile != spec_pile(case, b):
+                return (f"bx built box {b} with over {ov}, unders {un}, pile {pile}; declared: over {case['overs'][b]}, "
+                        f"unders {case['unders'][b]}, pile {spec_pile(case, b)} (declarations {case['decl']})")
     if not consistent(case):
         return None          # the property speaks about box trees
     status = ["idle"]
@@ -393,6 +490,7 @@ def _fmt(evs):
 
 
 def nontrivial(case, obs):
+    obs = obs[:-1]
     if not consistent(case) or depth(case) < 3:
         return False
     status = ["idle"]
@@ -459,10 +557,16 @@ def to_coq(case, obs):
         coq_list([coq_option(o, str, "nat") for o in case["overs"]], "option nat"),
         coq_list([coq_list(map(str, u), "nat") for u in case["unders"]], "list nat"),
         coq_list([coq_list(map(str, c), "nat") for c in case["counts"]], "list nat")))
+    built, obs = obs[-1]["built"], obs[:-1]
     ob = coq_list(["(%s, %s)" % (_status(o["status"]), coq_list([f"Box.E {k} {b} {j}" for k, b, j in o["trace"]], "Box.ev"))
                    for o in obs], "Box.status * list Box.ev")
-    return "{| Box.c_forest := %s; Box.c_ops := %s; Box.c_obs := %s |}" % (
-        fo, coq_list([_op(o) for o in case["ops"]], "Box.op"), ob)
+    mode = {"name": lambda b: f"(Box.MExplicit {case['overs'][b]})", "obj": lambda b: f"(Box.MExplicit {case['overs'][b]})",
+            "none": lambda b: "Box.MNone", "default": lambda b: "Box.MDefault"}
+    decl = coq_list([f"({b}, {mode[m](b)})" for b, m in case.get("decl") or []], "nat * Box.omode")
+    bl = coq_list(["(%d, %s, %s)" % (b, coq_option(ov, str, "nat"), coq_list([str(max(u, 0) if u >= 0 else 999) for u in un], "nat"))
+                   for b, ov, un, _ in (built or [])], "nat * option nat * list nat")
+    return "{| Box.c_forest := %s; Box.c_ops := %s; Box.c_obs := %s; Box.c_decl := %s; Box.c_built := %s |}" % (
+        fo, coq_list([_op(o) for o in case["ops"]], "Box.op"), ob, decl, bl)
 
 
 def distribution(cases, obs):
